@@ -51,6 +51,11 @@ def ev(e, env):
         if isinstance(op, ast.Add):
             return a + b
         if isinstance(op, ast.Sub):
+            if isinstance(a, dict) and isinstance(b, dict):
+                # difference of two datetimes that are known to differ only in the day of the month
+                if set(a) == set(b) == {"day"}:
+                    return {"days": a["day"] - b["day"]}
+                raise Unknown("datetime difference")
             return a - b
         if isinstance(op, ast.Mult):
             return a * b
@@ -173,6 +178,13 @@ def ev(e, env):
                         h = base["hour"] % 12 or 12
                         return str(h).zfill(2 if fmt == "%I" else 0)
                 raise Unknown(f"strftime {fmt!r}")
+            if f.attr == "replace" and not e.args and e.keywords:
+                base = ev(f.value, env)
+                if isinstance(base, dict) and all(k.arg in base for k in e.keywords):
+                    out = dict(base)
+                    for k in e.keywords:
+                        out[k.arg] = ev(k.value, env)
+                    return out
             if f.attr == "timetuple" and not e.args:
                 base = ev(f.value, env)
                 if isinstance(base, dict) and "yday" in base:
